@@ -1,6 +1,6 @@
 #!/usr/bin/env python3
 """Regenerates MANIFEST.json from the table below (kept in one place so it is always schema-valid)."""
-import json, sys
+import json, sys, sys
 BASE_OFF = "cd /repo && cargo test --workspace --no-fail-fast --offline"
 CHECKS = {
 }
@@ -39,5 +39,15 @@ m = {
     "not_applicable": na,
     "notes": NOTES,
 }
-json.dump(m, open('/verif/MANIFEST.json', 'w'), indent=1)
+# never leave an invalid manifest behind: validate the candidate first (with the tooling venv when available)
+import subprocess, tempfile, os
+tmp = tempfile.NamedTemporaryFile('w', suffix='.json', delete=False, dir='/verif')
+json.dump(m, tmp, indent=1)
+tmp.close()
+check = "import json,jsonschema,sys; jsonschema.validate(json.load(open(sys.argv[1])), json.load(open('/root/.vp/MANIFEST.schema.json')))"
+r = subprocess.run(['python3-vt', '-c', check, tmp.name], capture_output=True, text=True)
+if r.returncode != 0:
+    os.unlink(tmp.name)
+    sys.exit("MANIFEST candidate is INVALID, MANIFEST.json left unchanged:\n" + r.stderr[-600:])
+os.replace(tmp.name, '/verif/MANIFEST.json')
 print("claimed", claimed)
